@@ -11,7 +11,7 @@ quick / thorough:
      names the failing clause of the property => VIOLATION.
 """
 MANIFEST = dict(
-    technique="TLA+ spec RtpRouter.tla model-checked with TLC; TLC-simulated behaviours replayed into the real RtpRouter; recorded executions validated by TraceRouter.tla (TLC trace validation)",
+    technique="TLA+ spec RtpRouter.tla model-checked with TLC; TLC-simulated behaviours replayed into the real RtpRouter; the same histories one level up through a real RTCDtlsTransport (registration calls, RTP and compound RTCP datagrams, callbacks of the registered objects); recorded executions validated by TraceRouter.tla (TLC trace validation)",
     text="Exhaustive TLC check of the routing design (all register/unregister/packet histories of a small universe) plus conformance of the real RtpRouter to the spec's routing rules in both directions: every recorded routing decision is judged by the TLA+ rule operators.",
     note="Trusted: TLC, the harness' packet construction, REMB media SSRC 0 unregistered. Conformance is sampled (simulated + seeded random histories), the design check is exhaustive within the stated constants.",
     design_ref="5/C12")
